@@ -740,6 +740,11 @@ func (g *Gen) Append() *command.Append {
 			"From: a@b.c\r\nSubject: hi\r\n\r\nbody\r\n",
 			"To: x@y\r\nDate: Mon, 7 Feb 1994 21:52:25 -0800\r\n\r\n",
 			"x", "\r\n", "\r\n\r\n", "A2 NOOP\r\n", "{5}\r\nabcde", ")", "\"", " ",
+			// header values the message parsers stumble over: a comment / quoted string / group / bracket that is never
+			// closed, in fields the APPEND validation and the envelope builder read
+			"From: a@b.c (unfinished\r\nDate: Mon, 7 Feb 1994 21:52:25 -0800 (PST)\r\n\r\nx\r\n", "From: a@b.c\r\nDate: Mon, 7 Feb 1994 21:52:25 -0800 (PST)\r\nTo: other@example.com (unfinished\r\n\r\nx\r\n", "From: \"never closed <a@b.c>\r\nDate: Mon, 7 Feb 1994 21:52:25 -0800 (PST)\r\n\r\n",
+			"From: a@b.c\r\nDate: Mon, 7 Feb 1994 21:52:25 -0800 (PST)\r\nCc: group: x@y, z@w\r\n\r\n", "From: <a@b.c\r\nDate: Mon, 7 Feb 1994 21:52:25 -0800 (PST)\r\nSender: ((((((\r\n\r\n", "From: a@b.c\r\nDate: Mon, 7 Feb 1994 21:52:25 -0800 (PST)\r\nReply-To: a@[1.2.3\r\nDate: (((\r\n\r\n",
+			"From: a@b.c\r\nDate: Mon, 7 Feb 1994 21:52:25 -0800 (PST)\r\nContent-Type: multipart/mixed; boundary=\"\r\n\r\n--\r\n", "From: a@b.c\r\nDate: Mon, 7 Feb 1994 21:52:25 -0800 (PST)\r\nContent-Type: message/rfc822\r\n\r\nTo: x (y\r\n",
 		}))
 	case 3, 4:
 		a.Literal = rapid.SliceOfN(rapid.ByteRange(1, 255), 1, 48).Draw(g.T, "body")
